@@ -259,6 +259,7 @@ class World:
             except Exception as e:  # noqa: BLE001
                 raised = e
         cls = model.CLASSNAME[m.kind]
+        self.log.append(("mut", self.step_no, k, verdict, type(raised).__name__ if raised is not None else None))
         if verdict == "OK":
             if raised is not None:
                 prop = self.blame(sl)
